@@ -261,6 +261,9 @@ class RegWorld(World):
         for pfx in self.scenario.get('routes_before', []):
             self.app.route('/' + '/'.join(pfx))(lambda *a, **k: None)
             self.log('route', prefix=pfx, running=False, conn=-1)
+        for op in self.scenario['ops']:
+            if op.get('early'):
+                self.op_call(op)            # before the application connects
         self.main_task = self.spawn(self._main())
 
     def _finish(self):
@@ -284,7 +287,7 @@ class RegWorld(World):
             self.loop.call_soon(self._start)
             table = {'register': self.op_call, 'unregister': self.op_call, 'route': self.op_route,
                      'reconnect': self.op_reconnect}
-            ops = sorted(self.scenario['ops'], key=lambda o: o['at'])
+            ops = sorted([o for o in self.scenario['ops'] if not o.get('early')], key=lambda o: o['at'])
             i = 0
             while i < len(ops):
                 j = i
@@ -365,11 +368,9 @@ class RegWorld(World):
         for a, b in zip(cmds, cmds[1:]):
             ea = [x for x in ev if x['k'] == 'command' and x['idx'] == a.idx][0]
             eb = [x for x in ev if x['k'] == 'command' and x['idx'] == b.idx][0]
-            if ea['conn'] != eb['conn']:
-                continue
             free_at = a.answered_t if a.answered_t is not None else a.t + LIFETIME_US
             free_at = min(free_at, a.t + LIFETIME_US)
-            if b.t < free_at - W_US:
+            if ea['conn'] == eb['conn'] and b.t < free_at - W_US:
                 self.violate('C17', 'concurrent-commands', fe, b.verb,
                              f'command #{b.idx} ({b.verb}) was sent at t={b.t}us while command #{a.idx} ({a.verb}, sent '
                              f't={a.t}us) was still outstanding until t={free_at}us')
@@ -464,6 +465,10 @@ def generate(rng, seed, tier='quick'):
         else:
             pfx = registered.pop(rng.randrange(len(registered)))
             ops.append({'at': t + (0 if fe == 'v2' else 0), 'op': 'unregister', 'cid': cid, 'prefix': pfx})
+    if rng.random() < 0.15:
+        # a call made before the connection is up: documented NetworkError, and it must not spoil the calls that follow
+        ops.append({'at': 0, 'op': 'register', 'cid': 0, 'prefix': ['early', rng.choice(['x', 'y'])], 'with_handler': True,
+                    'early': True})
     routes_before = []
     if rng.random() < 0.4:
         for _ in range(rng.randint(1, 2)):
@@ -490,7 +495,7 @@ def generate(rng, seed, tier='quick'):
             pol = {'kind': 'status', 'code': rng.choice(STATUS_POOL[3:]), 'text': rng.choice(['err', 'Unauthorized', '']),
                    'body': rng.random() < 0.5, 'delay_us': rng.choice([0, 100, 5000])}
         elif x < 0.77:
-            pol = {'kind': 'nack', 'reason': rng.choice([50, 100, 150]), 'delay_us': rng.choice([0, 100, 5000])}
+            pol = {'kind': 'nack', 'reason': rng.choice([50, 100, 150, 0, None]), 'delay_us': rng.choice([0, 100, 5000])}
         elif x < 0.87:
             pol = {'kind': 'silence'}
         else:
@@ -508,8 +513,20 @@ def generate(rng, seed, tier='quick'):
     if reconnect:
         # 'once per connection': only declared routes, the connection is dropped and re-established once the
         # start-up registrations are over (a shutdown in the middle of them is outside the statement)
-        ops = [{'at': 2000 + len(routes_before) * 40000 + rng.choice([0, 1, 5000]), 'op': 'reconnect',
-                'how': rng.choice(['shutdown', 'peer_close'])}]
+        t_rc = 2000 + len(routes_before) * 40000 + rng.choice([0, 1, 5000])
+        ops = []
+        if rng.random() < 0.5:
+            # quick forwarder, connection dropped right after the last start-up command was answered: the first command of
+            # the next connection is due within the same clock reading as the last one of this connection
+            for pol in policies:
+                pol.clear()
+                pol.update({'kind': 'ok', 'delay_us': rng.choice([0, 1, 100])})
+            t_rc = 2000 + rng.choice([len(routes_before) - 1, len(routes_before)]) * cfg['wall_gran_us'] + rng.choice([1, 100, 300, 700])
+        if rng.random() < 0.5:
+            # a route declared while connected: registered at once, and again on every later connection
+            ops.append({'at': t_rc, 'op': 'route', 'prefix': ['s', rng.choice(['x', 'y'])]})
+            t_rc += 40000 + rng.choice([0, 1, 5000])
+        ops.append({'at': t_rc, 'op': 'reconnect', 'how': rng.choice(['shutdown', 'peer_close'])})
         for pol in policies:
             if pol['kind'] == 'silence' or pol.get('delay_us', 0) > 30000:
                 pol.clear()
